@@ -2,11 +2,9 @@
      f = (0.79 ln Re - 1.64)^-2,
      Nu = (f/8) (Re - 1000) Pr / (1 + 12.7 sqrt(f/8) (Pr^(2/3) - 1)),
    is non-decreasing in the Reynolds number from Re = 1000 on, for every Prandtl
-   number >= 1.  Over the classical reals (Coquelicot derivatives, Coq-Interval for
-   the one numeric bound). *)
+   number >= 1.  Over the classical reals (Coquelicot derivatives; the one numeric bound, ln 1000 >= 5, from e <= 3). *)
 From Coq Require Import Reals Lra.
 From Coquelicot Require Import Coquelicot.
-From Interval Require Import Tactic.
 Open Scope R_scope.
 
 Definition ga (re : R) : R := 79 / 100 * ln re - 164 / 100.
@@ -15,8 +13,20 @@ Definition gh (re : R) : R := (re - 1000) * gg re.
 Definition gden (re q : R) : R := 1 + 127 / 10 * sqrt (gg re) * q.
 Definition gnu (re pr q : R) : R := gh re * pr / gden re q.             (* q = Pr^(2/3) - 1 *)
 
-Lemma ga_1000 : 38 / 10 < ga 1000.
-Proof. unfold ga. interval. Qed.
+(* ln 1000 >= 5 because e^5 <= 3^5 = 243 < 1000 *)
+Lemma ln_1000 : 5 <= ln 1000.
+Proof.
+  assert (E : exp 5 <= 243).
+  { replace 5 with (1 + 1 + 1 + 1 + 1) by ring. rewrite !exp_plus.
+    pose proof exp_le_3 as H3. pose proof (exp_pos 1) as Hp. set (e := exp 1) in *.
+    assert (A : e * e <= 9) by nra. assert (B : e * e * e <= 27) by nra. assert (C : e * e * e * e <= 81) by nra. nra. }
+  rewrite <- (ln_exp 5). destruct (Rle_lt_or_eq_dec _ _ E) as [L | Q].
+  - left. apply ln_increasing; [apply exp_pos | lra].
+  - left. apply ln_increasing; [apply exp_pos | lra].
+Qed.
+
+Lemma ga_1000 : 23 / 10 < ga 1000.
+Proof. unfold ga. pose proof ln_1000. lra. Qed.
 
 Lemma ga_mono x y : 0 < x -> x <= y -> ga x <= ga y.
 Proof.
@@ -24,7 +34,7 @@ Proof.
   assert (ln x < ln y) by (apply ln_increasing; lra). lra.
 Qed.
 
-Lemma ga_big re : 1000 <= re -> 38 / 10 < ga re.
+Lemma ga_big re : 1000 <= re -> 23 / 10 < ga re.
 Proof. intros H. pose proof ga_1000. pose proof (ga_mono 1000 re ltac:(lra) H). lra. Qed.
 
 Definition dgh (re : R) : R := (ga re - 158 / 100 * ((re - 1000) / re)) / (8 * (ga re * ga re * ga re)).
